@@ -294,6 +294,13 @@ static void family_scanc(std::vector<hm::Scenario>& out, unsigned oracles, bool 
                 add(out, fam, *sh, {{scans[0]}, {mk(REMOVE, k), mk(PUT, k, 2)}}, oracles, quick_shapes.count(sn) != 0, 2, 2);
             }
         }
+        // the only key of a node is removed (the node goes away, its range falls to a neighbour) and put back while the scan is on its
+        // way from that node to the next one: the key must not be delivered twice
+        if (!with_nv && sh->pal.count("only") != 0) {
+            const std::string& k = sh->pal.at("only");
+            add(out, fam, *sh, {{scans[0]}, {mk(REMOVE, k), mk(PUT, k, 2)}}, oracles, sn != "I3_1_1_1", 2, 3);
+            add(out, fam, *sh, {{scans[0]}, {mk(REMOVE, k)}, {mk(PUT, k, 2)}}, oracles, false, 2, 2);
+        }
         // two writers / two writes, full scan only
         for (std::size_t a = 0; a < wops.size(); ++a) {
             for (std::size_t b = a + 1; b < wops.size(); ++b) {
